@@ -40,3 +40,7 @@ def seed_value() -> int:
 
 class HarnessError(Exception):
     """Infrastructure trouble: exit 2, never a VIOLATION."""
+
+
+class CaseTimeout(BaseException):
+    """Raised by the per-case watchdog (SIGALRM); must never be swallowed by harness code."""
